@@ -18,7 +18,7 @@ RULE = (
 ASSUMPTIONS = [
     "input domain as in the property's quantifier; 'line breaks' read conservatively as every str.splitlines boundary; text encodable as UTF-8 (PYTHONUTF8=1)",
 ]
-REQUIRED_CLASSES = ["route=path", "route=stream", "key=default", "key=zero-tail", "payload.len%16==0", "payload.trailing00", "comps>=2", "cmac=off", "payload>32KiB", "rewrite.directory-size-changed.same-count", "rewrite.directory-size-changed.count-changed"]
+REQUIRED_CLASSES = ["route=path", "route=stream", "key=default", "key=zero-tail", "payload.len%16==0", "payload.trailing00", "comps>=2", "cmac=off", "payload>32KiB", "comment-line>4KiB", "rewrite.directory-size-changed.same-count", "rewrite.directory-size-changed.count-changed"]
 
 
 def check(case, rec):
@@ -192,13 +192,17 @@ def enum_large(tier, shard, nshards, rng):
         if i % nshards != shard:
             continue
         blob = bytes(rng.getrandbits(8) for _ in range(n - 3)) + b"\x00\x00\x07"
-        yield dict(comments=[("FirmwareId", "1053")], comps=[dict(desc=[(0xC1, b"\x00")], blob=blob, actual_len=None if i % 2 else n - 1, enc=False),
+        # ... and comment lines far longer than any plausible line buffer (4 KiB .. 70 KB, with ': ' and hex-looking text inside)
+        long_value = ("note: 0123456789ABCDEF " * (200 + 1500 * i))[: 4090 + 33000 * i] + "end"
+        yield dict(comments=[("FirmwareId", "1053"), ("Note", long_value), ("K" * (4100 + i), "v")], comps=[dict(desc=[(0xC1, b"\x00")], blob=blob, actual_len=None if i % 2 else n - 1, enc=False),
                                                               dict(desc=[], blob=b"tail", actual_len=None, enc=False)],
                    key=bytes(rng.getrandbits(8) for _ in range(16)), route="path" if i % 2 else "stream", check_cmac=bool(i % 3))
 
 
 def check_large(case, rec):
     rec.cls("payload>32KiB")
+    if any(len(k) + len(v) > 4096 for k, v in case["comments"]):
+        rec.cls("comment-line>4KiB")
     check(case, rec)
 
 
